@@ -8,6 +8,11 @@
 //!   mbenc <mesh>                         -> `<bytes> | bin <decoded>`
 //!   maenc <mesh> <k> (<bits> <display>)* -> `<text> | tok=1 | ascii <decoded>`
 //!   mdec <bytes> <k> (<token> <bits|->)* -> `<bin|ascii|other> <decoded>`
+//!   plarge <n> <pat> <seed>              -> `ok n=.. len=.. fnv=..`   (LARGE stream, data derived from the seed)
+//!   wlarge <i|f> <rows> <c> <pat> <seed> -> `ok <i|f> rows=.. c=.. len=.. fnv=..`
+//!   mlarge <b|a> <nv> <scale> <pat> <seed> -> `ok len=.. fnv=..`
+//!   mpad <nv> <scale> <seed> <kw|sweep> <lo> <hi> <step> -> `ok files=..` (ASCII files on disk, padded)
+//!   mbfile <nv0> <nv1> <scale> <seed>    -> `ok files=..`             (binary files on disk)
 //! <mesh> = `dim nc coords* nr refs* nb (ty nn nodes* nr refs*)*`
 //! The tables of `maenc`/`mdec` carry Rust's own `Display`/`FromStr` results for the
 //! float tokens (the abstract number syntax of the token-level model).
@@ -705,6 +710,583 @@ pub fn generate(ctx: &mut Ctx) {
     for t in ["", " ", "MeshVersionFormatted", "meshversionformatted 2 dimension 2 end", "MeshVersionFormatte 2", "# vtk DataFile Version 2.0\n", "\x01\x00\x00", "\x00\x00\x00\x01"] {
         run_op(ctx, &mdec_op(t.as_bytes()));
     }
+    generate_large(ctx);
+}
+
+// ---------------------------------------------------------------- large / corner stream
+//
+// Size-gated and plumbing-gated paths: data far above the usual block thresholds (and not
+// multiples of powers of two), read back from memory, through tiny-capacity `BufReader`s,
+// through a reader that hands out one byte per `read` call, and from real files on disk whose
+// 8 KiB buffer boundaries fall at chosen offsets. The data is derived from the seed in the op
+// line by `mix` (mirrored in the Lean driver), so the op line stays short and replayable.
+
+use std::io::{self, BufReader, Read};
+
+const CAPS: [usize; 7] = [1, 2, 3, 7, 64, 4096, 8192];
+const TMP_DIR: &str = "/verif/out/C19/tmp";
+
+fn mix(seed: u64, i: u64) -> u64 {
+    let mut z = seed.wrapping_add((i.wrapping_add(1)).wrapping_mul(0x9E3779B97F4A7C15));
+    z = (z ^ (z >> 30)).wrapping_mul(0xBF58476D1CE4E5B9);
+    z = (z ^ (z >> 27)).wrapping_mul(0x94D049BB133111EB);
+    z ^ (z >> 31)
+}
+
+fn fnvb(b: &[u8]) -> u64 {
+    let mut h: u64 = 0xcbf29ce484222325;
+    for x in b {
+        h = (h ^ *x as u64).wrapping_mul(0x100000001b3);
+    }
+    h
+}
+
+/// hands out one byte per `read` call
+struct OneByte<'a>(&'a [u8]);
+impl Read for OneByte<'_> {
+    fn read(&mut self, buf: &mut [u8]) -> io::Result<usize> {
+        if buf.is_empty() || self.0.is_empty() {
+            return Ok(0);
+        }
+        buf[0] = self.0[0];
+        self.0 = &self.0[1..];
+        Ok(1)
+    }
+}
+
+fn tmp_path(tag: &str) -> std::path::PathBuf {
+    let _ = std::fs::create_dir_all(TMP_DIR);
+    std::path::Path::new(TMP_DIR).join(format!("{}-{}", std::process::id(), tag))
+}
+
+fn size_class(n: usize) -> &'static str {
+    match n {
+        0..=4096 => "<=4096",
+        4097..=16384 => "4097..16384",
+        16385..=65535 => "16385..65535",
+        65536..=131072 => "65536..131072",
+        _ => ">131072",
+    }
+}
+
+fn large_id(pat: &str, seed: u64, i: u64) -> Option<u64> {
+    Some(match pat {
+        "rand" => mix(seed, i),
+        "small" => mix(seed, i) % 64,
+        "asc" => i,
+        "blk" => i / 4096,
+        _ => return None,
+    })
+}
+
+/// 64-bit pattern of value `k` of a weight array (`i64` two's complement / `f64` bits)
+fn large_w(float: bool, pat: &str, seed: u64, k: u64) -> Option<u64> {
+    Some(match (pat, float) {
+        ("rand", _) => mix(seed, k),
+        ("asc", false) => k,
+        ("asc", true) => 0x4330000000000000 + k, // 2^52 + k
+        ("near", false) => (1u64 << 61) - mix(seed, k) % 1000, // just below 2^61
+        ("near", true) => 0x4330000000000000 | (mix(seed, k) & ((1 << 52) - 1)), // [2^52, 2^53)
+        ("blk", _) => k / 4096,
+        _ => return None,
+    })
+}
+
+const LARGE_SPECIAL: [u64; 6] =
+    [0, 0x8000000000000000, 1, 0x7fefffffffffffff, 0xffefffffffffffff, 0x3ff0000000000000];
+
+fn large_mesh(nv: usize, scale: usize, pat: &str, seed: u64) -> Option<M> {
+    if nv == 0 || !(pat == "rand" || pat == "seq") {
+        return None;
+    }
+    let dim = 2 + (seed % 2) as usize;
+    let coords = (0..(dim * nv) as u64)
+        .map(|i| {
+            let r = mix(seed, i);
+            if i % 97 == 96 {
+                LARGE_SPECIAL[(r % 6) as usize]
+            } else {
+                ((r >> 63) << 63) | ((1013 + ((r >> 52) % 31)) << 52) | (r & ((1 << 52) - 1))
+            }
+        })
+        .collect();
+    let refs = (0..nv as u64)
+        .map(|i| {
+            if i % 1000 == 999 {
+                if (i / 1000) % 2 == 0 {
+                    isize::MAX
+                } else {
+                    isize::MIN
+                }
+            } else {
+                (mix(seed.wrapping_add(1), i) % 13) as isize - 3
+            }
+        })
+        .collect();
+    let spec = [
+        (ElementType::Triangle, 5 * scale),
+        (ElementType::Edge, 0),
+        (ElementType::Tetrahedron, 2 * scale + 1),
+        (ElementType::Triangle, scale + 234),
+        (ElementType::Hexahedron, scale / 2 + 77),
+        (ElementType::Quadrilateral, scale + 3),
+        (ElementType::Edge, 3 * scale + 5),
+    ];
+    let blocks = spec
+        .iter()
+        .enumerate()
+        .map(|(b, (t, ne))| {
+            let nodes = (0..(ne * t.node_count()) as u64)
+                .map(|j| {
+                    if pat == "rand" {
+                        (mix(seed.wrapping_add(7 + b as u64), j) % nv as u64) as usize
+                    } else {
+                        (j % nv as u64) as usize
+                    }
+                })
+                .collect();
+            let r = (0..*ne as u64).map(|e| (mix(seed.wrapping_add(100 + b as u64), e) % 13) as isize - 3).collect();
+            (*t, nodes, r)
+        })
+        .collect();
+    Some(M { dim, coords, refs, blocks })
+}
+
+/// every way a mesh is read back; returns the modes whose result differs from `want`
+fn read_mesh_all_ways(ctx: &mut Ctx, bytes: &[u8], binary: bool, want: &M, tag: &str) -> Vec<String> {
+    let mut bad = vec![];
+    let check = |ctx: &mut Ctx, bad: &mut Vec<String>, mode: String, r: Caught<Result<M, String>>| match r {
+        Caught::Ok(Ok(m)) if m == *want => ctx.count(&format!("read_mode:{}", mode.split('=').next().unwrap_or(""))),
+        Caught::Ok(Ok(_)) => bad.push(format!("{}: different mesh", mode)),
+        Caught::Ok(Err(e)) => bad.push(format!("{}: {}", mode, e)),
+        Caught::Panic(p) => bad.push(format!("{}: panic {}", mode, p)),
+        Caught::Hang => bad.push(format!("{}: hang", mode)),
+    };
+    let conv = |r: mesh_io::Result<Mesh>| r.map(|m| M::of_mesh(&m)).map_err(|e| e.to_string());
+    let direct = |r: Result<Mesh, medit::ParseError>| r.map(|m| M::of_mesh(&m)).map_err(|e| e.to_string());
+    // (a) memory
+    check(ctx, &mut bad, "from_reader/memory".into(), catch(|| conv(Mesh::from_reader(bytes))));
+    // (b) tiny-capacity buffered readers: the parser of the format ...
+    for c in CAPS {
+        check(
+            ctx,
+            &mut bad,
+            format!("parser/bufreader={}", c),
+            catch(|| {
+                let r = BufReader::with_capacity(c, bytes);
+                direct(if binary { medit::parse_binary(r) } else { medit::parse_ascii(r) })
+            }),
+        );
+    }
+    // ... and the auto-detecting entry point where the first chunk can hold the magic
+    for c in [64usize, 4096, 8192] {
+        check(ctx, &mut bad, format!("from_reader/bufreader={}", c), catch(|| conv(Mesh::from_reader(BufReader::with_capacity(c, bytes)))));
+    }
+    // (c) one byte per read call
+    for c in [1usize, 8192] {
+        check(
+            ctx,
+            &mut bad,
+            format!("parser/onebyte-bufreader={}", c),
+            catch(|| {
+                let r = BufReader::with_capacity(c, OneByte(bytes));
+                direct(if binary { medit::parse_binary(r) } else { medit::parse_ascii(r) })
+            }),
+        );
+    }
+    // `from_reader` sniffs the format from ONE `fill_buf`; when that first chunk is shorter than
+    // the magic it answers UnknownFormat (an error, never wrong data). Counted, see the report.
+    for (name, r) in [
+        ("bufreader=1", catch(|| conv(Mesh::from_reader(BufReader::with_capacity(1, bytes))))),
+        ("bufreader=3", catch(|| conv(Mesh::from_reader(BufReader::with_capacity(3, bytes))))),
+        ("bufreader=7", catch(|| conv(Mesh::from_reader(BufReader::with_capacity(7, bytes))))),
+        ("onebyte", catch(|| conv(Mesh::from_reader(BufReader::new(OneByte(bytes)))))),
+    ] {
+        match r {
+            Caught::Ok(Ok(m)) if m == *want => ctx.count(&format!("corner:from_reader_short_first_chunk:{}:ok", name)),
+            Caught::Ok(Ok(_)) => bad.push(format!("from_reader/{}: different mesh", name)),
+            Caught::Ok(Err(e)) if e == "unknown format" => ctx.count(&format!("corner:from_reader_short_first_chunk:{}:unknown-format", name)),
+            Caught::Ok(Err(e)) => bad.push(format!("from_reader/{}: {}", name, e)),
+            Caught::Panic(p) => bad.push(format!("from_reader/{}: panic {}", name, p)),
+            Caught::Hang => bad.push(format!("from_reader/{}: hang", name)),
+        }
+    }
+    // (d) a real file, `Mesh::from_file` (its own 8 KiB BufReader)
+    let path = tmp_path(tag);
+    if std::fs::write(&path, bytes).is_ok() {
+        check(ctx, &mut bad, "from_file".into(), catch(|| conv(Mesh::from_file(&path))));
+        let _ = std::fs::remove_file(&path);
+    } else {
+        ctx.count("tmp_file_not_writable");
+    }
+    bad
+}
+
+fn generate_large(ctx: &mut Ctx) {
+    // partition files: around 2^16 and 2^17, far above, not multiples of powers of two
+    let mut sizes = vec![(65535usize, "rand"), (65536, "blk"), (65537, "asc"), (131072 + 5, "rand"), (200003, "small")];
+    if !ctx.quick() {
+        sizes.extend([(4097, "rand"), (8193, "blk"), (16385 + 37, "asc"), (20001, "rand"), (65537 + 11, "small"), (70001, "blk"), (131077, "asc"), (140003, "rand"), (200003, "blk"), (262144 + 1, "rand")]);
+    }
+    for (n, pat) in sizes {
+        let seed = ctx.rng.next() % 1000;
+        run_op(ctx, &format!("plarge {} {} {}", n, pat, seed));
+    }
+    // weight files: payload past 1, 4 and 8 MiB; criterion counts that are not powers of two
+    let mut ws = vec![
+        ("f", 140003usize, 1usize, "rand"),
+        ("i", 70001, 2, "near"),
+        ("f", 40003, 4, "near"),
+        ("f", 180000, 3, "rand"),
+        ("i", 250000, 5, "rand"),
+    ];
+    if !ctx.quick() {
+        ws.extend([
+            ("i", 9, 65535, "rand"),
+            ("f", 17, 65535, "rand"),
+            ("i", 180000, 3, "asc"),
+            ("f", 250000, 5, "blk"),
+            ("f", 4099, 255, "near"),
+            ("i", 4099, 256, "rand"),
+            ("f", 4099, 257, "rand"),
+            ("i", 131077, 1, "asc"),
+            ("f", 262147, 4, "asc"),
+            ("i", 8193, 3, "blk"),
+            ("f", 16385 + 37, 2, "rand"),
+            ("i", 20001, 7, "near"),
+            ("f", 2, 65535, "near"),
+            ("i", 3, 65535, "asc"),
+        ]);
+    }
+    for (kind, rows, c, pat) in ws {
+        let seed = ctx.rng.next() % 1000;
+        run_op(ctx, &format!("wlarge {} {} {} {} {}", kind, rows, c, pat, seed));
+    }
+    // MEDIT meshes of a few hundred KiB, seven element blocks, read back every way
+    let mut ms = vec![("b", 6001usize, 1000usize, "rand"), ("a", 6001, 1000, "rand")];
+    if !ctx.quick() {
+        ms.extend([("b", 8193, 1500, "seq"), ("a", 8193, 1500, "seq"), ("b", 4097, 700, "rand"), ("a", 4097, 700, "seq"), ("b", 20001, 300, "rand"), ("a", 20001, 300, "rand"), ("b", 1, 2000, "seq"), ("a", 1, 2000, "seq")]);
+    }
+    for (f, nv, scale, pat) in ms {
+        let seed = ctx.rng.next() % 1000;
+        run_op(ctx, &format!("mlarge {} {} {} {} {}", f, nv, scale, pat, seed));
+    }
+    // files on disk: the 8 KiB buffer boundary at every offset class around each keyword/count line
+    let seed = ctx.rng.next() % 1000;
+    if ctx.quick() {
+        run_op(ctx, &format!("mpad 300 40 {} kw -3 3 1", seed));
+        run_op(ctx, &format!("mpad 300 40 {} kw 4 24 5", seed));
+        run_op(ctx, &format!("mpad 300 40 {} sweep 0 8192 701", seed));
+        run_op(ctx, &format!("mbfile 250 262 30 {}", seed));
+    } else {
+        run_op(ctx, &format!("mpad 300 40 {} kw -40 40 1", seed));
+        run_op(ctx, &format!("mpad 300 40 {} sweep 0 8192 13", seed));
+        run_op(ctx, &format!("mpad 700 15 {} kw -16 16 1", seed + 1));
+        run_op(ctx, &format!("mbfile 1 260 30 {}", seed));
+        run_op(ctx, &format!("mbfile 250 515 3 {}", seed + 1));
+    }
+}
+
+fn run_large(ctx: &mut Ctx, op: &str) -> bool {
+    let t: Vec<&str> = op.split_whitespace().collect();
+    let num = |s: &str| s.parse::<usize>().ok();
+    match t.as_slice() {
+        ["plarge", n, pat, seed] => {
+            let (Some(n), Some(seed)) = (num(n), seed.parse::<u64>().ok()) else { return false };
+            if n > 2_000_000 || large_id(pat, seed, 0).is_none() {
+                return false;
+            }
+            let ids: Vec<usize> = (0..n as u64).map(|i| large_id(pat, seed, i).unwrap() as usize).collect();
+            let mut bad: Vec<String> = vec![];
+            let mut buf = vec![];
+            let w = catch(|| partition::write(&mut buf, ids.iter().cloned()).map_err(|e| e.to_string()));
+            match w {
+                Caught::Ok(Ok(())) => {}
+                Caught::Ok(Err(e)) => bad.push(format!("write: {}", e)),
+                Caught::Panic(p) => bad.push(format!("write: panic {}", p)),
+                Caught::Hang => bad.push("write: hang".into()),
+            }
+            // independent statement of the layout
+            let mut spec = b"MePe".to_vec();
+            spec.extend((n as u64).to_le_bytes());
+            for i in &ids {
+                spec.extend((*i as u64).to_le_bytes());
+            }
+            if buf != spec {
+                bad.push("bytes differ from the documented layout".into());
+            }
+            let path = tmp_path("partition");
+            let _ = std::fs::write(&path, &buf);
+            let mut modes: Vec<(String, Caught<partition::Result<Vec<usize>>>)> = vec![];
+            modes.push(("memory".into(), catch(|| partition::read(&buf[..]))));
+            for c in CAPS {
+                modes.push((format!("bufreader={}", c), catch(|| partition::read(BufReader::with_capacity(c, &buf[..])))));
+            }
+            modes.push(("onebyte".into(), catch(|| partition::read(OneByte(&buf)))));
+            modes.push(("onebyte-bufreader".into(), catch(|| partition::read(BufReader::new(OneByte(&buf))))));
+            modes.push(("file".into(), catch(|| partition::read(BufReader::new(std::fs::File::open(&path)?)))));
+            for (mode, r) in modes {
+                match r {
+                    Caught::Ok(Ok(v)) if v == ids => ctx.count(&format!("read_mode:partition/{}", mode.split('=').next().unwrap_or(""))),
+                    Caught::Ok(Ok(v)) => {
+                        let at = v.iter().zip(&ids).position(|(a, b)| a != b);
+                        bad.push(format!("{}: {} ids read, first difference at {:?}", mode, v.len(), at))
+                    }
+                    Caught::Ok(Err(e)) => bad.push(format!("{}: {}", mode, e)),
+                    Caught::Panic(p) => bad.push(format!("{}: panic {}", mode, p)),
+                    Caught::Hang => bad.push(format!("{}: hang", mode)),
+                }
+            }
+            let _ = std::fs::remove_file(&path);
+            ctx.count(&format!("large:partition:{}", size_class(n)));
+            let out = if bad.is_empty() { format!("ok n={} len={} fnv={:x}", n, buf.len(), fnvb(&buf)) } else { format!("MISMATCH {}", bad[0]) };
+            let idx = ctx.record(op.to_string(), out, true);
+            if !bad.is_empty() {
+                ctx.fail(idx, "large-partition-roundtrip", bad.join("; "));
+            }
+            true
+        }
+        ["wlarge", kind, rows, c, pat, seed] => {
+            let (Some(rows), Some(c), Some(seed)) = (num(rows), num(c), seed.parse::<u64>().ok()) else { return false };
+            let float = match *kind {
+                "f" => true,
+                "i" => false,
+                _ => return false,
+            };
+            if rows == 0 || c == 0 || c > 65535 || rows.saturating_mul(c) > 4_000_000 || large_w(float, pat, seed, 0).is_none() {
+                return false;
+            }
+            let bits: Vec<Vec<u64>> = (0..rows).map(|r| (0..c).map(|j| large_w(float, pat, seed, (r * c + j) as u64).unwrap()).collect()).collect();
+            let mut bad: Vec<String> = vec![];
+            let mut buf = vec![];
+            let w = catch(|| {
+                if float {
+                    weight::write_floats(&mut buf, bits.iter().map(|r| r.iter().map(|b| f64::from_bits(*b)))).map_err(|e| e.to_string())
+                } else {
+                    weight::write_integers(&mut buf, bits.iter().map(|r| r.iter().map(|b| *b as i64))).map_err(|e| e.to_string())
+                }
+            });
+            match w {
+                Caught::Ok(Ok(())) => {}
+                Caught::Ok(Err(e)) => bad.push(format!("write: {}", e)),
+                Caught::Panic(p) => bad.push(format!("write: panic {}", p)),
+                Caught::Hang => bad.push("write: hang".into()),
+            }
+            // independent statement of the layout (weight-gen(1))
+            let mut spec = b"MeWe".to_vec();
+            spec.extend([1u8, if float { 0 } else { 1 }]);
+            spec.extend((c as u16).to_le_bytes());
+            spec.extend((rows as u64).to_le_bytes());
+            for r in &bits {
+                for b in r {
+                    spec.extend(b.to_le_bytes());
+                }
+            }
+            if buf != spec {
+                bad.push("bytes differ from the documented layout".into());
+            }
+            let path = tmp_path("weights");
+            let _ = std::fs::write(&path, &buf);
+            let mut modes: Vec<(String, Caught<weight::Result<weight::Array>>)> = vec![];
+            modes.push(("memory".into(), catch(|| weight::read(&buf[..]))));
+            for cap_ in CAPS {
+                modes.push((format!("bufreader={}", cap_), catch(|| weight::read(BufReader::with_capacity(cap_, &buf[..])))));
+            }
+            modes.push(("onebyte".into(), catch(|| weight::read(OneByte(&buf)))));
+            modes.push(("onebyte-bufreader".into(), catch(|| weight::read(BufReader::new(OneByte(&buf))))));
+            modes.push(("file".into(), catch(|| weight::read(BufReader::new(std::fs::File::open(&path)?)))));
+            for (mode, r) in modes {
+                let got: Result<Option<Vec<Vec<u64>>>, String> = match r {
+                    Caught::Ok(Ok(weight::Array::Floats(v))) if float => Ok(Some(v.iter().map(|r| r.iter().map(|x| x.to_bits()).collect()).collect())),
+                    Caught::Ok(Ok(weight::Array::Integers(v))) if !float => Ok(Some(v.iter().map(|r| r.iter().map(|x| *x as u64).collect()).collect())),
+                    Caught::Ok(Ok(_)) => Ok(None),
+                    Caught::Ok(Err(e)) => Err(e.to_string()),
+                    Caught::Panic(p) => Err(format!("panic {}", p)),
+                    Caught::Hang => Err("hang".into()),
+                };
+                match got {
+                    Ok(Some(v)) if v == bits => ctx.count(&format!("read_mode:weights/{}", mode.split('=').next().unwrap_or(""))),
+                    Ok(Some(v)) => {
+                        let at = v.iter().zip(&bits).position(|(a, b)| a != b);
+                        bad.push(format!("{}: {} rows read, first different row {:?}", mode, v.len(), at))
+                    }
+                    Ok(None) => bad.push(format!("{}: integer/float kind changed", mode)),
+                    Err(e) => bad.push(format!("{}: {}", mode, e)),
+                }
+            }
+            let _ = std::fs::remove_file(&path);
+            let payload = rows * c * 8;
+            ctx.count(&format!("large:weights:payload>{}MiB", if payload > 8 << 20 { 8 } else if payload > 4 << 20 { 4 } else if payload > 1 << 20 { 1 } else { 0 }));
+            ctx.count(&format!("corner:criteria:{}", if c <= 4 { c.to_string() } else if c.is_power_of_two() { "2^k".into() } else if c == 65535 { "65535".into() } else { "other-non-pow2".into() }));
+            let out = if bad.is_empty() { format!("ok {} rows={} c={} len={} fnv={:x}", kind, rows, c, buf.len(), fnvb(&buf)) } else { format!("MISMATCH {}", bad[0]) };
+            let idx = ctx.record(op.to_string(), out, true);
+            if !bad.is_empty() {
+                ctx.fail(idx, "large-weights-roundtrip", bad.join("; "));
+            }
+            true
+        }
+        ["mlarge", f, nv, scale, pat, seed] => {
+            let (Some(nv), Some(scale), Some(seed)) = (num(nv), num(scale), seed.parse::<u64>().ok()) else { return false };
+            let binary = match *f {
+                "b" => true,
+                "a" => false,
+                _ => return false,
+            };
+            if nv > 200_000 || scale > 20_000 {
+                return false;
+            }
+            let Some(m) = large_mesh(nv, scale, pat, seed) else { return false };
+            let mut bad: Vec<String> = vec![];
+            let m2 = m.clone();
+            let bytes = match catch(move || {
+                let mesh = m2.to_mesh();
+                let mut buf = vec![];
+                if binary {
+                    mesh.serialize_medit_binary(&mut buf).map_err(|e| e.to_string())?;
+                } else {
+                    buf = mesh.display_medit_ascii().to_string().into_bytes();
+                }
+                Ok::<_, String>(buf)
+            }) {
+                Caught::Ok(Ok(b)) => b,
+                Caught::Ok(Err(e)) => {
+                    bad.push(format!("write: {}", e));
+                    vec![]
+                }
+                Caught::Panic(p) => {
+                    bad.push(format!("write: panic {}", p));
+                    vec![]
+                }
+                Caught::Hang => {
+                    bad.push("write: hang".into());
+                    vec![]
+                }
+            };
+            if bad.is_empty() {
+                bad = read_mesh_all_ways(ctx, &bytes, binary, &m, if binary { "mesh.meshb" } else { "mesh.mesh" });
+            }
+            ctx.count(&format!("large:mesh:{}:{}KiB", if binary { "binary" } else { "ascii" }, bytes.len() / 102400 * 100));
+            let out = if bad.is_empty() { format!("ok len={} fnv={:x}", bytes.len(), fnvb(&bytes)) } else { format!("MISMATCH {}", bad[0]) };
+            let idx = ctx.record(op.to_string(), out, true);
+            if !bad.is_empty() {
+                ctx.fail(idx, "large-mesh-roundtrip", bad.join("; "));
+            }
+            true
+        }
+        ["mpad", nv, scale, seed, mode, lo, hi, step] => {
+            let (Some(nv), Some(scale), Some(seed), Some(lo), Some(hi), Some(step)) =
+                (num(nv), num(scale), seed.parse::<u64>().ok(), lo.parse::<i64>().ok(), hi.parse::<i64>().ok(), num(step))
+            else {
+                return false;
+            };
+            if step == 0 || nv > 5000 || scale > 500 || hi < lo || hi - lo > 20000 {
+                return false;
+            }
+            let Some(m) = large_mesh(nv, scale, "rand", seed) else { return false };
+            let text = match catch(|| m.to_mesh().display_medit_ascii().to_string()) {
+                Caught::Ok(t) => t,
+                _ => return false,
+            };
+            // padding goes on the blank line after `Dimension d`; offsets of the tokens whose
+            // position relative to a buffer boundary matters: keywords and count lines
+            let Some(ins) = text.find("\n\nVertices").map(|p| p + 1) else { return false };
+            let mut marks = vec![];
+            for kw in ["Vertices", "Edges", "Triangles", "Quadrilaterals", "Tetrahedra", "Hexahedra", "End"] {
+                let mut from = 0;
+                while let Some(p) = text[from..].find(&format!("\n{}", kw)) {
+                    marks.push(from + p + 1);
+                    from += p + 1;
+                }
+            }
+            let mut pads: Vec<usize> = vec![];
+            match *mode {
+                "sweep" => {
+                    let mut p = lo.max(0);
+                    while p <= hi {
+                        pads.push(p as usize);
+                        p += step as i64;
+                    }
+                }
+                "kw" => {
+                    for o in &marks {
+                        let mut d = lo;
+                        while d <= hi {
+                            // keyword start lands `d` bytes after a multiple of 8192
+                            pads.push(((d - *o as i64).rem_euclid(8192)) as usize);
+                            d += step as i64;
+                        }
+                    }
+                }
+                _ => return false,
+            }
+            let mut bad = vec![];
+            let path = tmp_path("padded.mesh");
+            for p in &pads {
+                let mut t = String::with_capacity(text.len() + p);
+                t.push_str(&text[..ins]);
+                t.extend(std::iter::repeat(' ').take(*p));
+                t.push_str(&text[ins..]);
+                if std::fs::write(&path, &t).is_err() {
+                    ctx.count("tmp_file_not_writable");
+                    break;
+                }
+                match catch(|| Mesh::from_file(&path).map(|x| M::of_mesh(&x)).map_err(|e| e.to_string())) {
+                    Caught::Ok(Ok(x)) if x == m => ctx.count("corner:padded_ascii_file_ok"),
+                    Caught::Ok(Ok(_)) => bad.push(format!("padding {}: different mesh", p)),
+                    Caught::Ok(Err(e)) => bad.push(format!("padding {}: {}", p, e)),
+                    Caught::Panic(e) => bad.push(format!("padding {}: panic {}", p, e)),
+                    Caught::Hang => bad.push(format!("padding {}: hang", p)),
+                }
+            }
+            let _ = std::fs::remove_file(&path);
+            ctx.count(&format!("corner:file_layout_{}", mode));
+            let out = if bad.is_empty() { format!("ok files={}", pads.len()) } else { format!("MISMATCH {}", bad[0]) };
+            let idx = ctx.record(op.to_string(), out, true);
+            if !bad.is_empty() {
+                bad.truncate(5);
+                ctx.fail(idx, "padded-ascii-file-roundtrip", bad.join("; "));
+            }
+            true
+        }
+        ["mbfile", nv0, nv1, scale, seed] => {
+            let (Some(nv0), Some(nv1), Some(scale), Some(seed)) = (num(nv0), num(nv1), num(scale), seed.parse::<u64>().ok()) else { return false };
+            if nv0 == 0 || nv1 < nv0 || nv1 - nv0 > 2000 || nv1 > 20000 || scale > 500 {
+                return false;
+            }
+            let mut bad = vec![];
+            let path = tmp_path("sweep.meshb");
+            let mut files = 0;
+            for nv in nv0..=nv1 {
+                // one more node shifts every block header by 24/32 bytes across the 8 KiB boundaries
+                let Some(m) = large_mesh(nv, scale, "rand", seed.wrapping_add(nv as u64 % 2)) else { return false };
+                let m2 = m.clone();
+                let p2 = path.clone();
+                match catch(move || {
+                    let mut buf = vec![];
+                    m2.to_mesh().serialize_medit_binary(&mut buf).map_err(|e| e.to_string())?;
+                    std::fs::write(&p2, &buf).map_err(|e| e.to_string())?;
+                    Mesh::from_file(&p2).map(|x| M::of_mesh(&x)).map_err(|e| e.to_string())
+                }) {
+                    Caught::Ok(Ok(x)) if x == m => ctx.count("corner:binary_file_ok"),
+                    Caught::Ok(Ok(_)) => bad.push(format!("{} nodes: different mesh", nv)),
+                    Caught::Ok(Err(e)) => bad.push(format!("{} nodes: {}", nv, e)),
+                    Caught::Panic(e) => bad.push(format!("{} nodes: panic {}", nv, e)),
+                    Caught::Hang => bad.push(format!("{} nodes: hang", nv)),
+                }
+                files += 1;
+            }
+            let _ = std::fs::remove_file(&path);
+            ctx.count("corner:file_layout_binary");
+            let out = if bad.is_empty() { format!("ok files={}", files) } else { format!("MISMATCH {}", bad[0]) };
+            let idx = ctx.record(op.to_string(), out, true);
+            if !bad.is_empty() {
+                bad.truncate(5);
+                ctx.fail(idx, "binary-file-roundtrip", bad.join("; "));
+            }
+            true
+        }
+        _ => false,
+    }
 }
 
 // ---------------------------------------------------------------- runner + oracle
@@ -968,6 +1550,11 @@ pub fn run_op(ctx: &mut Ctx, op: &str) {
             }
             ctx.count(&format!("mdec_{}", out.split(' ').take(3).collect::<Vec<_>>().join("_").chars().take(20).collect::<String>()));
             ctx.record(op.to_string(), out, false);
+        }
+        Some("plarge" | "wlarge" | "mlarge" | "mpad" | "mbfile") => {
+            if !run_large(ctx, op) {
+                bad(ctx)
+            }
         }
         _ => bad(ctx),
     }
